@@ -464,6 +464,8 @@ func runBGVShares(c BGVCase, rec *h.Rec) error {
 		return centered(ringE, mq)
 	}
 	var pools, pools2 smudgePools // decryption shares, re-encryption shares
+	pools.off, pools2.off = !statsCase(c.Seed), !statsCase(c.Seed)
+	var masks uniPools
 	cls := func(i int) int {
 		if i == 0 || !c.Shallow {
 			return 0
@@ -495,6 +497,9 @@ func runBGVShares(c BGVCase, rec *h.Rec) error {
 		}
 		if err := collect(cls(i), residual(i, pub[i], sec[i])); err != nil {
 			return err
+		}
+		for _, v := range sec[i].Value.Coeffs[0] {
+			masks.add(cls(i), float64(v)/float64(c.Params.T))
 		}
 	}
 	if !ct.Equal(ctOrig) {
@@ -560,8 +565,16 @@ func runBGVShares(c BGVCase, rec *h.Rec) error {
 		if err := collect(kc, residual(0, p, s)); err != nil {
 			return err
 		}
+		for _, v := range s.Value.Coeffs[0] {
+			masks.add(kc, float64(v)/float64(c.Params.T))
+		}
 	}
 	if err := pools.check(c.Sigma, 1, "C16:mpbgv:EncToShare:GenShare:smudging-too-small", rec); err != nil {
+		return err
+	}
+	// the additive shares (masks) are documented as uniform in R_t
+	tf64 := float64(c.Params.T)
+	if err := masks.check((tf64-1)/(2*tf64), (tf64*tf64-1)/(12*tf64*tf64), "C16:mpbgv:EncToShare:GenShare:mask-not-uniform"); err != nil {
 		return err
 	}
 
@@ -680,7 +693,7 @@ func head(v []uint64) []uint64 {
 	return v
 }
 
-var propBGVShares = h.NewProp("TestPropBGVShares", h.Budget{Quick: 600, Thorough: 10000}, genBGVShares, runBGVShares)
+var propBGVShares = h.NewProp("TestPropBGVShares", h.Budget{Quick: 500, Thorough: 2500}, genBGVShares, runBGVShares)
 
 func TestPropBGVShares(t *testing.T) { propBGVShares.Check(t) }
 
@@ -881,6 +894,7 @@ func runBGVRefresh(c BGVCase, rec *h.Rec) error {
 				return centered(ringC, q)
 			}
 			var pools smudgePools
+			pools.off = !statsCase(c.Seed)
 			collect := func(k int, v []*big.Int) error {
 				if infNorm(v).Cmp(bigF(2*x.bParty)) > 0 {
 					return h.Failf("C16:mpbgv:"+c.Mode+":GenShare:noise-above-bound", "refresh-share noise %s exceeds the hard bound %g (sigma=%g)", infNorm(v), 2*x.bParty, c.Sigma)
@@ -1045,6 +1059,6 @@ func runBGVRefresh(c BGVCase, rec *h.Rec) error {
 	return nil
 }
 
-var propBGVRefresh = h.NewProp("TestPropBGVRefresh", h.Budget{Quick: 800, Thorough: 12000}, genBGVRefresh, runBGVRefresh)
+var propBGVRefresh = h.NewProp("TestPropBGVRefresh", h.Budget{Quick: 800, Thorough: 4000}, genBGVRefresh, runBGVRefresh)
 
 func TestPropBGVRefresh(t *testing.T) { propBGVRefresh.Check(t) }
